@@ -308,7 +308,7 @@ func genPath(r *RNG, maxSeg int) []string {
 
 var longPool = []string{"0", "1", "-1", "2", "3", "7", "10", "-10", "100", "2147483647", "2147483648", "-2147483648", "-2147483649",
 	"9007199254740991", "9007199254740992", "9007199254740993", "-9007199254740992", "-9007199254740993",
-	"9223372036854775807", "-9223372036854775808", "4611686018427387904", "-0", "42", "255", "256", "65536"}
+	"9223372036854775807", "-9223372036854775808", "4611686018427387904", "-4611686018427387904", "6000000000000000000", "-6000000000000000000", "-0", "42", "255", "256", "65536", "10", "20", "1000"}
 
 var badLongPool = []string{"1e+5", "2E+3", "-1e+2", "9223372036854775808", "-9223372036854775809", "99999999999999999999", "0e+0", "7E+10"}
 
@@ -324,7 +324,8 @@ var verPool = []string{"1.0.0", "1.2.3", "1.10.0", "1.9.0", "0.0.0", "0.0.1", "1
 var hugeVerPool = []string{"18446744073709551616.0.0", "1.18446744073709551616.0", "1.0.99999999999999999999"}
 
 var strPool = []string{"", "abc", "ABC", "aBc", "ab", "bc", "b", "a b", " abc", "abc ", "  ", "cde", "Straße", "STRASSE", "strasse", "İ", "i", "ǅ", "ǆ", "K", "k", "ſ", "s", "ς", "σ", "Σ",
-	"héllo", "HÉLLO", "日本語", "x", "X", "zz", "Zz", "1.0.0", "true", "null", "a.b", "[1]", "a,b", "(a)", "Ω", "ω", "Å", "å", "é", "É", "ab\tcd", "line\nbreak", "Ⱥ", "ⱥ", "ẞ", "ß", "line1\r\nline2", "\r\n", "a\rb", "\n", "tab\there ", "Ω", "Å", "\u2028x", "nul\x00byte", "\x7f", "𝒳𝒴", "ＡＢ", "ǰ", "ŉ", "<nil>", "<NIL>", "Ⅷ", "ⅷ", "Ⓐ", "ⓐ", "(", ")", "((", "a(b", "x )", "x  z", "x !", "x 5", "a\tb  c", "10", "1.5", "1.2.3", "5"}
+	"héllo", "HÉLLO", "日本語", "x", "X", "zz", "Zz", "1.0.0", "true", "null", "a.b", "[1]", "a,b", "(a)", "Ω", "ω", "Å", "å", "é", "É", "ab\tcd", "line\nbreak", "Ⱥ", "ⱥ", "ẞ", "ß", "line1\r\nline2", "\r\n", "a\rb", "\n", "tab\there ", "Ω", "Å", "\u2028x", "nul\x00byte", "\x7f", "𝒳𝒴", "ＡＢ", "ǰ", "ŉ", "<nil>", "<NIL>", "Ⅷ", "ⅷ", "Ⓐ", "ⓐ", "(", ")", "((", "a(b", "x )", "x  z", "x !", "x 5", "a\tb  c", "10", "1.5", "1.2.3", "5",
+	"1.10.0", "1.9.0", "1.0.0-alpha", "1.0.0", "1.0.0-2", "1.0.0-10", "1.0.0+build.1", "1.0.0+build.2", "Doe, John", "y,z", ","}
 
 // bodies with the escape sequences the grammar allows (the engine keeps them verbatim: no unescaping). Used for the
 // elements of string lists only: C04 leaves literals with backslashes outside its claim.
@@ -404,7 +405,13 @@ func genLit(r *RNG, kind string) Lit {
 	return Lit{Kind: "null", Text: "null"}
 }
 
+// allowEscapedScalars: scalar string literals may contain the grammar's escape sequences (C04 leaves them outside its claim and switches this off)
+var allowEscapedScalars = true
+
 func genBody(r *RNG) string {
+	if allowEscapedScalars && r.Chance(1, 15) {
+		return pick(r, escPool)
+	}
 	if r.Chance(8, 10) {
 		return pick(r, strPool)
 	}
@@ -655,15 +662,15 @@ var specialFloats = []float64{math.NaN(), math.Inf(1), math.Inf(-1), 0, math.Cop
 	4294967296.0, 2147483648.0, -2147483649.0, 1e19, -1e19, 1e300, 0.1, 0.5, 1e-300}
 
 var semverNear = []string{"1.0", "v1.0.0", "1.0.0.", "01.0.0", "1.00.0", "1.0.0-", "1.0.0-01", " 1.0.0", "1.0.0 ", "1.0.0-a..b", "1.0.0+", "1.0.0+a+b", "", "1", "1.0.0.0", "a.b.c", "1.0.0-é", "-1.0.0", "+1.0.0", "1..0",
-	"18446744073709551616.0.0", "1.0.0-18446744073709551616"}
-var semverSuffix = []string{"", "-beta", "-beta.2", "-alpha.1", "-1", "-0", "-rc.1+build.5", "+build", "+b.1.2", "-alpha.beta", "-alpha-x", "-10", "-2", "-a", "-A", "-beta.11", "-beta.2.1"}
+	"18446744073709551616.0.0", "1.0.0-18446744073709551616", "1.0.0-\u212a", "1.0.0+\u0130", "2.0.0-\u212a", "1.0.0-\u017f", "1.0.0-é"}
+var semverSuffix = []string{"", "-beta", "-beta.2", "-alpha.1", "-1", "-0", "-rc.1+build.5", "+build", "+b.1.2", "-alpha.beta", "-alpha-x", "-10", "-2", "-a", "-A", "-beta.11", "-beta.2.1", "-rc-", "--", "+exp-", "-rc-1", "-x-y-", "-0a", "-a.0"}
 
 func nearValue(r *RNG, leaf *Node, idc *int) *AV {
 	stringer := func(s string) *AV {
 		*idc++
 		if r.Chance(1, 12) {
 			if r.Chance(1, 2) {
-				return &AV{K: AVStringerPanic, ID: *idc + 1000}
+				return &AV{K: AVStringerPanic, ID: *idc + 1000 + 1000*r.Intn(2)}
 			}
 			return &AV{K: AVStringerPanic, ID: *idc}
 		}
@@ -712,6 +719,14 @@ func nearValue(r *RNG, leaf *Node, idc *int) *AV {
 	l := leaf.Lit
 	numNear := func(n int64) *AV {
 		d := int64(r.Intn(3) - 1)
+		if r.Chance(1, 14) {
+			// far away from the literal: the ends of the int64 range and values 2^62 apart (differences that do not fit in int64)
+			far := pick(r, []int64{math.MaxInt64, math.MinInt64, math.MaxInt64 - 1, math.MinInt64 + 1, 1 << 62, -(1 << 62), (1 << 62) + 1, 6000000000000000000, -6000000000000000000})
+			if r.Chance(1, 3) {
+				return &AV{K: AVInt64, I: far}
+			}
+			return avInt(far)
+		}
 		switch r.Intn(12) {
 		case 0, 1, 2:
 			return avInt(n + d)
@@ -986,6 +1001,34 @@ func genObject(r *RNG, root *Node, opt ObjOpts) *AV {
 	if r.Chance(1, 5) {
 		obj.Set("unrelated", avStr("zzz"))
 		obj.Nil = false
+	}
+	// decoys: keys that LOOK like a path of the rule but are not it - the whole dotted path as one top-level key, a
+	// dotted suffix of it, the first step in another letter case (two variants, so that no single one is "the" match)
+	if len(leaves) > 0 && r.Chance(1, 8) {
+		lf := pick(r, leaves)
+		p := lf.Path
+		idc2 := 100
+		switch r.Intn(3) {
+		case 0:
+			if len(p) > 1 {
+				obj.Set(strings.Join(p, "."), nearValue(r, lf, &idc2))
+				obj.Nil = false
+			}
+		case 1:
+			if len(p) > 2 {
+				obj.Set(strings.Join(p[1:], "."), nearValue(r, lf, &idc2))
+				obj.Nil = false
+			}
+		default:
+			up, sw := strings.ToUpper(p[0]), swapCase(p[0])
+			if up != p[0] && obj.Get(up) == nil {
+				obj.Set(up, nearValue(r, lf, &idc2))
+				obj.Nil = false
+			}
+			if sw != p[0] && sw != up && obj.Get(sw) == nil && r.Chance(1, 2) {
+				obj.Set(sw, avStr("silver"))
+			}
+		}
 	}
 	return obj
 }
